@@ -671,6 +671,44 @@ static void fatal_handler(const char *msg)
 	vk_end("FATAL");
 }
 
+/*
+ * Harness rules at the return of iv_main (traced as "X ..." segments, which no model trace contains): what is still
+ * registered must still be reachable by the loop, so that it is served when iv_main is entered again --
+ *  - a registered timer sits in the heap (1 <= index <= num_timers); index 0 means "on the expired batch of a running
+ *    iv_run_timers", which does not exist any more;
+ *  - a registered task is on the loop's pending list (walked from st->tasks), and no batch is being run;
+ *  - a registered descriptor is on no active list (that list lived on the stack of iv_fd_poll_and_run).
+ */
+static void check_end_state(void)
+{
+	int i;
+
+	if (st->tasks_current != NULL)
+		vk_trace("X end: tasks_current still set after iv_main returned");
+	for (i = 0; i < NOBJ; i++) {
+		struct iv_timer_ *t = (struct iv_timer_ *)otm[i];
+		struct iv_task_ *k = (struct iv_task_ *)otk[i];
+		struct iv_fd_ *f = (struct iv_fd_ *)ofd[i];
+
+		if (iv_timer_registered(otm[i]) && (t->index < 1 || t->index > st->num_timers))
+			vk_trace("X end: timer %d is registered but not in the heap (index %d, %d timers): it will never fire",
+				 i, t->index, st->num_timers);
+		if (iv_task_registered(otk[i])) {
+			struct iv_list_head *p;
+			int n = 0, found = 0;
+
+			for (p = st->tasks.next; p != &st->tasks && p != NULL && n < 100000; p = p->next, n++) {
+				if (p == &k->list)
+					found = 1;
+			}
+			if (!found)
+				vk_trace("X end: task %d is registered but not on the loop's task list: it will never run", i);
+		}
+		if (iv_fd_registered(ofd[i]) && !iv_list_empty(&f->list_active))
+			vk_trace("X end: descriptor object %d is still on an active list after iv_main returned", i);
+	}
+}
+
 static void run_case(char *line)
 {
 	char *sec, *save;
@@ -811,6 +849,7 @@ static void run_case(char *line)
 	vk_trace("M");
 	iv_main();
 	vk_trace("E q=%d n=%d", st->quit, st->numobjs);
+	check_end_state();
 
 	/* tear-down: unregister what is left, free everything, deinit */
 	for (i = 0; i < NOBJ; i++) {
